@@ -246,9 +246,9 @@ struct lin_checker
   std::uint64_t nodes = 0;
   bool timeout = false;
 
-  bool go(std::uint32_t done, State const &st)
+  bool go(std::uint64_t done, State const &st)
   {
-    if (done == (1U << ops.size()) - 1U)
+    if (done == (std::uint64_t{1} << ops.size()) - 1U)
       return true;
     if (++nodes > 2000000)
     {
@@ -260,12 +260,12 @@ struct lin_checker
       return false;
     for (std::size_t i = 0; i < ops.size(); ++i)
     {
-      if (done & (1U << i))
+      if (done & (std::uint64_t{1} << i))
         continue;
       // i can be next only if no other pending operation entirely precedes it
       bool minimal = true;
       for (std::size_t j = 0; j < ops.size() && minimal; ++j)
-        if (j != i && !(done & (1U << j)) && ops[j].ret + MARGIN < ops[i].call)
+        if (j != i && !(done & (std::uint64_t{1} << j)) && ops[j].ret + MARGIN < ops[i].call)
           minimal = false;
       if (!minimal)
         continue;
@@ -276,7 +276,7 @@ struct lin_checker
         apply_set(next, o.loc, o.arg, locs);
       else
         consistent = st[static_cast<std::size_t>(loc_index(o.loc))] == o.res;
-      if (consistent && go(done | (1U << i), next))
+      if (consistent && go(done | (std::uint64_t{1} << i), next))
         return true;
       if (timeout)
         return false;
@@ -385,6 +385,9 @@ void concurrent(std::uint64_t total)
         plan[t].push_back(o);
       }
     barrier_t bar(nthreads);
+    // objects created during the concurrent phase stay alive (one vector per thread, nothing shared): after the threads
+    // have finished, each of them must show the level that the sequential explanation gives to its location
+    std::vector<std::vector<std::pair<Loc, std::unique_ptr<l::object>>>> created(nthreads);
     std::vector<std::thread> th;
     std::vector<std::uint64_t> spin_seed(nthreads);
     for (unsigned t = 0; t < nthreads; ++t)
@@ -425,10 +428,11 @@ void concurrent(std::uint64_t total)
             l::location loc = mkloc(parent);
             l::parameters prm{l::name{names[o.loc.back()]}, l::format::optional_function{}};
             o.call = now_ns();
-            l::object obj(fcppt::make_ref(ctx), loc, prm);
-            auto r = obj.level();
+            auto obj = std::make_unique<l::object>(fcppt::make_ref(ctx), loc, prm);
+            auto r = obj->level();
             o.ret = now_ns();
             o.res = fromopt(r);
+            created[t].emplace_back(o.loc, std::move(obj));
           }
           break;
           case OpK::Read:
@@ -493,7 +497,7 @@ void concurrent(std::uint64_t total)
     State init;
     init.fill(static_cast<std::int8_t>(rootlvl));
     lin_checker lc{locked, locs, {}, 0, false};
-    bool lin = locked.size() <= 30 && lc.go(0, init);
+    bool lin = locked.size() <= 62 && lc.go(0, init);
     vf::count("log/conc/search-nodes", lc.nodes);
     VF_COUNT("log/conc/histories-checked");
     vf::count("log/conc/operations", all.size());
@@ -553,7 +557,23 @@ void concurrent(std::uint64_t total)
         tq += 10 * MARGIN;
         finals.push_back(o);
       }
-      if (finals.size() <= 31)
+      for (auto const &per_thread : created)
+        for (auto const &co : per_thread)
+        {
+          if (finals.size() >= 60)
+            break;
+          Op o;
+          o.k = OpK::Get; // judged like a get of the object's location: two nodes for one location would show here
+          o.loc = co.first;
+          o.thread = 98;
+          o.call = tq;
+          o.res = fromopt(co.second->level());
+          o.ret = tq + 1;
+          tq += 10 * MARGIN;
+          finals.push_back(o);
+          VF_COUNT("log/conc/quiescent-object-levels");
+        }
+      if (finals.size() <= 62)
       {
         lin_checker lq{finals, locs, {}, 0, false};
         bool okq = lq.go(0, init);
@@ -575,7 +595,7 @@ void body()
                         "log/seq/create-by-parent", "log/seq/object-level", "log/seq/log-emitted", "log/seq/log-suppressed",
                         "log/conc/histories-checked", "log/conc/overlap/set-set", "log/conc/overlap/set-get", "log/conc/overlap/set-create",
                         "log/conc/overlap/create-create", "log/conc/overlap/set-lockfree-read", "log/conc/lockfree-reads-checked",
-                        "log/conc/quiescent-checks"})
+                        "log/conc/quiescent-checks", "log/conc/quiescent-object-levels"})
     vf::require_bucket(b);
   sequential(vf::tier<std::uint64_t>(20000, 1000000));
   concurrent(vf::tier<std::uint64_t>(12000, 400000));
